@@ -31,7 +31,7 @@ func (s bset) inter(o bset) bset {
 func (s bset) minus(o bset) bset {
 	return bset{s[0] &^ o[0], s[1] &^ o[1], s[2] &^ o[2], s[3] &^ o[3]}
 }
-func (s bset) empty() bool { return s[0]|s[1]|s[2]|s[3] == 0 }
+func (s bset) empty() bool     { return s[0]|s[1]|s[2]|s[3] == 0 }
 func (s bset) sub(o bset) bool { return s.minus(o).empty() }
 func (s bset) count() int {
 	n := 0
@@ -109,8 +109,8 @@ type lexState struct {
 	cur, peek bset
 	vals      map[ssa.Value]bset
 	contents  map[ssa.Value]bset // bytes a local []byte value may contain
-	alias     map[ssa.Value]int // 1 = current byte, 2 = look-ahead byte (since the last advance)
-	noAdv     bool              // no advance has happened since the analysed root was entered (on every path)
+	alias     map[ssa.Value]int  // 1 = current byte, 2 = look-ahead byte (since the last advance)
+	noAdv     bool               // no advance has happened since the analysed root was entered (on every path)
 	live      bool
 	flagU     bset // values of the current byte for which the after-newline flag may still be unset
 	flagMust  bool // the after-newline flag is set on every path
